@@ -14,6 +14,8 @@ Cosmos staking module is not modelled. Whether the relayer assignment
 Powers are `⌊share · 2^32 / total⌋` (repo fix a6dfde52; the pinned tree computed them in float64)
 and a validator is listed once per chain (repo fix 8962e1ca; the pinned tree listed it once per
 matching account).
+`isNewSnapshotWorthy` divides by the snapshots' totals (`QuoInt(TotalShares)`); a zero divisor is a
+Go panic, modelled as an explicit outcome of `build` (`quoPanics`, `buildPanics`), not by `x/0 = 0`.
 Core Lean only.
 -/
 namespace Paloma.Valset
@@ -221,6 +223,18 @@ def worthy (cur : Option Snapshot) (new : Snapshot) : Bool :=
   | none => true
   | some c => worthyAgainst c new
 
+/-- where `isNewSnapshotWorthy` PANICS: when the three earlier tests (length, membership, order by
+share) found no difference and the snapshots are not empty, the percentage loop evaluates
+`LegacyNewDecFromInt(share).QuoInt(currentSnapshot.TotalShares)` and
+`LegacyNewDecFromInt(share).QuoInt(newSnapshot.TotalShares)` for the first pair, and `QuoInt(0)`
+is a `big.Int` division by zero. (`fraction18 _ 0` above is therefore never looked at by `build`:
+see `buildPanics`.) -/
+def quoPanics (cur new : Snapshot) : Bool :=
+  if cur.vals.length != new.vals.length then false else
+  if new.vals.any (fun v => !(cur.vals.any (fun w => w.id == v.id))) then false else
+  if zipAny (fun a b => a.id != b.id) (sortAsc cur.vals) (sortAsc new.vals) then false else
+  !cur.vals.isEmpty && (cur.total == 0 || new.total == 0)
+
 /-! ### the validator set for one chain -/
 
 def isEvm (t : Nat) : Bool := t == 0 || t == 1
@@ -296,8 +310,18 @@ def publishAll (s : St) (snap : Snapshot) (now : Nat) (picks : List Nat) : St :=
 def storeAsCurrent (s : St) (snap : Snapshot) : St :=
   { s with snaps := s.snaps ++ [{ snap with id := s.lastId + 1 }], lastId := s.lastId + 1 }
 
-/-- `TriggerSnapshotBuild`; `picks` = chains for which a relayer can be assigned -/
+/-- `TriggerSnapshotBuild` panics (division by zero inside `isNewSnapshotWorthy`); the caller's
+cache context is dropped, nothing is written -/
+def buildPanics (s : St) (now : Nat) : Bool :=
+  match current s with
+  | none => false
+  | some c => quoPanics c (createSnapshot s now)
+
+/-- `TriggerSnapshotBuild`; `picks` = chains for which a relayer can be assigned. A panicking
+build (`buildPanics`) and a build whose snapshot is not worthy leave the state unchanged and
+return nothing. -/
 def build (s : St) (now : Nat) (picks : List Nat) : St × Option Snapshot :=
+  if buildPanics s now then (s, none) else
   if !worthy (current s) (createSnapshot s now) then (s, none) else
   (publishAll (storeAsCurrent s (createSnapshot s now)) { createSnapshot s now with id := s.lastId + 1 } now picks,
    some { createSnapshot s now with id := s.lastId + 1 })
